@@ -46,6 +46,7 @@ type FuncContract struct {
 	Opaque   bool // never inline even when small
 	CalleeEns map[string][]*Clause // `callee NAME ensures e`: an extra postcondition assumed for calls to NAME made by this function (local refinement of a library summary; listed as an assumption)
 	CalleeAsg map[string][]string  // `callee NAME assigns ghost.x, ...`
+	Guarded  []*GuardClause // `guarded HEAP by e`: every read or write of HEAP by this function needs e (lock discipline)
 	Abstract map[string]bool // callees (unqualified names) whose postconditions are NOT used when verifying this function (keeps heavy spec functions out of its VCs; dropping assumptions is sound)
 	Sticky   bool // single-result method: once non-nil/true for a receiver, it stays so (e.g. context.Context.Err)
 	Effects  []string
@@ -56,6 +57,13 @@ type FuncContract struct {
 	Sends    []*Clause // condition every value sent on a channel must satisfy (over `sent`)
 	used     bool
 	merged   bool // this block's clauses were added to another block for the same function: not verified on its own
+}
+
+// GuardClause: heap locations matching Pat may be read or written by the
+// function only while Clause holds (e.g. ghost.held: the protecting mutex is held).
+type GuardClause struct {
+	Pat    string
+	Clause *Clause
 }
 
 // ReachClause: the statement with the given source text may be reached only
@@ -106,11 +114,12 @@ type ContractFile struct {
 	Ghosts  []*GhostVar
 	Lemmas  []*Clause
 	Axioms  []*Clause
+	BVLemmas []*Clause
 }
 
 var clauseKeywords = map[string]bool{
-	"func": true, "spec": true, "ghost": true, "lemma": true, "axiom": true,
-	"requires": true, "ensures": true, "assumes": true, "loop": true, "callback": true, "nopanic": true,
+	"func": true, "spec": true, "ghost": true, "lemma": true, "axiom": true, "bvlemma": true,
+	"requires": true, "ensures": true, "assumes": true, "assumes_pre": true, "guarded": true, "loop": true, "callback": true, "nopanic": true,
 	"assigns": true, "effects": true, "calls": true, "pure": true,
 	"trusted": true, "inline": true, "reach": true, "sends": true, "opaque": true, "sticky": true, "abstract": true, "callee": true, "crash_invariant": true, "results": true,
 }
@@ -213,6 +222,15 @@ func parseContractFile(path, pkgPath string) (*ContractFile, error) {
 			}
 			cf.Ghosts = append(cf.Ghosts, &GhostVar{Name: parts[0], PkgPath: pkgPath, Type: te, File: path, Line: rl.line})
 			cur = nil
+		case "bvlemma":
+			i := strings.Index(rest, ":")
+			if i < 0 {
+				return nil, fmt.Errorf("%s:%d: bvlemma NAME: [forall v T, ... ::] expr", path, rl.line)
+			}
+			c := &Clause{Kind: "bvlemma", Tags: tags, Text: strings.TrimSpace(rest[i+1:]), File: path, Line: rl.line}
+			c.Label = strings.TrimSpace(rest[:i])
+			cf.BVLemmas = append(cf.BVLemmas, c)
+			cur = nil
 		case "lemma", "axiom":
 			i := strings.Index(rest, ":")
 			if i < 0 {
@@ -229,9 +247,21 @@ func parseContractFile(path, pkgPath string) (*ContractFile, error) {
 				cf.Axioms = append(cf.Axioms, c)
 			}
 			cur = nil
-		case "requires", "ensures", "crash_invariant", "sends", "assumes":
+		case "requires", "ensures", "crash_invariant", "sends", "assumes", "assumes_pre":
 			if err := needCur(); err != nil {
 				return nil, err
+			}
+			if w == "assumes_pre" {
+				// a fact about the inputs that holds in every execution for a reason
+				// outside the logic (e.g. no slice is larger than the address space):
+				// assumed in the body, not demanded of callers, listed as an assumption
+				c, err := mk("requires", rest)
+				if err != nil {
+					return nil, err
+				}
+				c.Assumed = true
+				cur.Requires = append(cur.Requires, c)
+				continue
 			}
 			if w == "assumes" {
 				c, err := mk("ensures", rest)
@@ -468,6 +498,19 @@ func parseContractFile(path, pkgPath string) (*ContractFile, error) {
 					}
 				}
 			}
+		case "guarded":
+			if err := needCur(); err != nil {
+				return nil, err
+			}
+			i := strings.Index(rest, " by ")
+			if i < 0 {
+				return nil, fmt.Errorf("%s:%d: guarded HEAP by expr", path, rl.line)
+			}
+			c, err := mk("guarded", strings.TrimSpace(rest[i+4:]))
+			if err != nil {
+				return nil, err
+			}
+			cur.Guarded = append(cur.Guarded, &GuardClause{Pat: strings.TrimSpace(rest[:i]), Clause: c})
 		case "abstract":
 			if err := needCur(); err != nil {
 				return nil, err
